@@ -263,6 +263,9 @@ pub struct FrontendCtx<'a, R: FileManager> {
 
     pub type_application_stack: Vec<(String, Runtype)>,
     jsdoc_cache_by_file: BTreeMap<BffFileName, JsdocFileCache>,
+    /// module items whose resolution is under way: an import / re-export chain that comes back to
+    /// one of them would never end
+    resolving_items: Vec<(bool, ModuleItemAddress)>,
 }
 
 #[derive(Debug)]
@@ -442,6 +445,20 @@ trait TypeModuleWalker<'a, R: FileManager + 'a, U> {
     }
 
     fn get_addressed_item(&mut self, addr: &ModuleItemAddress, err_anchor: &Anchor) -> Res<U> {
+        let key = (true, addr.clone());
+        if self.get_ctx().resolving_items.contains(&key) {
+            return Err(self.get_ctx().box_error(
+                err_anchor,
+                DiagnosticInfoMessage::CannotNotResolveType(addr.clone()),
+            ));
+        }
+        self.get_ctx().resolving_items.push(key);
+        let res = self.get_addressed_item_step(addr, err_anchor);
+        self.get_ctx().resolving_items.pop();
+        res
+    }
+
+    fn get_addressed_item_step(&mut self, addr: &ModuleItemAddress, err_anchor: &Anchor) -> Res<U> {
         let parsed_module = self.get_ctx().get_or_fetch_file(&addr.file, err_anchor)?;
         match addr.visibility {
             Visibility::Local => {
@@ -821,6 +838,20 @@ trait ValueModuleWalker<'a, R: FileManager + 'a, U> {
         }
     }
     fn get_addressed_item(&mut self, addr: &ModuleItemAddress, anchor: &Anchor) -> Res<U> {
+        let key = (false, addr.clone());
+        if self.get_ctx().resolving_items.contains(&key) {
+            return self.get_ctx().error(
+                anchor,
+                DiagnosticInfoMessage::CannotNotResolveValue(addr.clone()),
+            );
+        }
+        self.get_ctx().resolving_items.push(key);
+        let res = self.get_addressed_item_step(addr, anchor);
+        self.get_ctx().resolving_items.pop();
+        res
+    }
+
+    fn get_addressed_item_step(&mut self, addr: &ModuleItemAddress, anchor: &Anchor) -> Res<U> {
         let parsed_module = self.get_ctx().get_or_fetch_file(&addr.file, anchor)?;
         match addr.visibility {
             Visibility::Local => {
@@ -1107,6 +1138,7 @@ impl<'a, R: FileManager> FrontendCtx<'a, R> {
             type_application_stack: vec![],
             recursive_generic_uuids: BTreeSet::new(),
             jsdoc_cache_by_file: BTreeMap::new(),
+            resolving_items: vec![],
         }
     }
 
